@@ -5,6 +5,7 @@ CONSTANTS NP = 1
           Devs = {}
           MCLimits = {1}
           MCMsgLen = 1
+          MCNCfg = 2
           MCIgnored = {}
           MCBig = {2}
           Cfgs <- MCCfgs
